@@ -537,10 +537,52 @@ def flat_vs_body(rng, kf, kb, small=False):
     return (rand_flat(rng, kf), body), "random"
 
 
+def int_box(rng, lo=-3, hi=2):
+    """axis-aligned box with small integer corners (coordinates -1 / -2 included on purpose:
+    CPython hashes -1.0 and -2.0 alike, the one small-number hash collision there is)"""
+    c = []
+    if rng.random() < 0.7:
+        # unit-ish cross-section in two axes, the third axis in the negative range
+        ax = rng.randrange(3)
+        for i in range(3):
+            if i == ax:
+                x0 = rng.randint(-3, -1)
+                x1 = rng.randint(x0 + 1, 0)
+            elif rng.random() < 0.6:
+                x0, x1 = 0, 1
+            else:
+                x0 = rng.randint(-2, 0)
+                x1 = rng.randint(x0 + 1, 1)
+            c.append((F(x0), F(x1)))
+    else:
+        for _ in range(3):
+            x0 = rng.randint(lo, hi - 1)
+            c.append((F(x0), F(rng.randint(x0 + 1, min(hi, x0 + 3)))))
+    pts = [(c[0][i], c[1][j], c[2][k]) for i in (0, 1) for j in (0, 1) for k in (0, 1)]
+    return K.hull3d(pts)
+
+
+def int_rect(rng, lo=-3, hi=2):
+    ax = rng.randrange(3)
+    box = int_box(rng, lo, hi)
+    f = [f for f in box[2] if len({v[ax] for v in f}) == 1]
+    return ("PG", rng.choice(f))
+
+
 def body_pair(rng, ka, kb, small=True):
     """two convex bodies (PG/PH) in a labelled relative position"""
     r = rng.random()
+    if rng.random() < 0.12:
+        mk = lambda k: int_box(rng) if k == "PH" else int_rect(rng)
+        return (mk(ka), mk(kb)), "small-integer-boxes"
     a = rand_obj(rng, ka, small)
+    if r < 0.1 and ka == "PH" and kb == "PH":
+        # strictly nested, off-centre: a shrunken copy about an interior point (no surface contact)
+        inner = [q for q in feature_points(a).get("interior", [])]
+        if inner:
+            b = _scale_about(a, rng.choice(inner), rng.choice((F(1, 4), F(1, 2), F(1, 8))))
+            if ok_coords(b, 64):
+                return ((a, b) if rng.random() < 0.7 else (b, a)), "strictly-nested"
     if r < 0.3:
         return (a, targeted(rng, kb, a)), "shared-features"
     if r < 0.55 and ka == kb:
